@@ -101,7 +101,32 @@ func (p *objectWalker) walkAllRefs() error {
 		}
 		return p.walkObjectTree(ref.Hash())
 	})
-	return err
+	if err != nil {
+		return err
+	}
+	return p.walkIndex()
+}
+
+// walkIndex marks the objects recorded in the index as seen: staged content
+// is not reachable from any reference until it is committed.
+func (p *objectWalker) walkIndex() error {
+	idx, err := p.Storer.Index()
+	if err != nil {
+		return err
+	}
+	for _, e := range idx.Entries {
+		if e.Hash.IsZero() || e.Mode == filemode.Submodule || p.isSeen(e.Hash) {
+			continue
+		}
+		if _, err := p.Storer.EncodedObjectSize(e.Hash); err != nil {
+			if errors.Is(err, plumbing.ErrObjectNotFound) {
+				continue
+			}
+			return err
+		}
+		p.add(e.Hash)
+	}
+	return nil
 }
 
 func (p *objectWalker) isSeen(hash plumbing.Hash) bool {
